@@ -220,8 +220,18 @@ int main(int argc, char **argv) {
             std::string bytes = cp::print(d, tape, po, info);
             if (!info.ok) { count_excluded("unprintable"); RC_DISCARD("unprintable"); }
             // occasionally blow the document up beyond the 4096-byte read buffer / the 133120-unit scan buffer with a big text field
-            int big = *rc::gen::weightedElement<int>({{70, 0}, {20, 1}, {8, 2}, {2, 3}});
-            if (big) {
+            int big = *rc::gen::weightedElement<int>({{66, 0}, {20, 1}, {8, 2}, {2, 3}, {4, 4}});
+            if (big == 4) {
+                // more than a scan buffer (131200 units) of SMALL tokens: the buffer then fills up to its end between compactions, and the
+                // last, short read of the file meets it at an arbitrary fill level (terminator folding shifts the level against the
+                // 4096-byte reads).  Comment lines cost nothing to store; a few items follow so that a lost tail is seen.
+                int nlines = *g::range(1700, 2600), len = *g::range(30, 90);
+                std::string tf = "\ndata_many\n";
+                for (int i = 0; i < nlines; i++) { tf += "#"; tf += std::string((size_t) (len + (i * 7) % 5), (char) ('a' + i % 26)); tf += "\n"; }
+                int ntail = *g::range(1, 40);
+                for (int i = 0; i < ntail; i++) tf += "_tail_" + std::to_string(i) + " v" + std::to_string(i) + "\n";
+                bytes += tf; label("many-small-tokens");
+            } else if (big) {
                 size_t lines = big == 1 ? 6 : big == 2 ? 40 : 160; std::string tf = "\ndata_big _big\n;";
                 for (size_t i = 0; i < lines; i++) { tf += std::string(900 + (i * 37) % 1100, (char) ('a' + i % 26)); tf += (i % 3 == 0) ? " \xC3\xA9\xF0\x9D\x92\xB3\n" : "\n"; }
                 tf += ";\n";
@@ -243,7 +253,7 @@ int main(int argc, char **argv) {
             c.seti("utf16", *g::chance(12) ? 1 : 0);
             if (*g::chance(30)) { std::string m; int n = *g::range(1, 6); for (int i = 0; i < n; i++) m += std::to_string(*rc::gen::element(1, 2, 3, 7, 100, 1000, 4095, 4096, 4097, 10000)) + " "; c.set("chunks", m); }
             // target: a byte of the document to move next to a fill boundary: prefer line terminators inside values and multi-byte characters
-            bool two = big && !c.geti("utf16") && *g::chance(40);      // two-boundary mode: one terminator ends a fill, another opens a later fill
+            bool two = big >= 1 && big <= 3 && !c.geti("utf16") && *g::chance(40);      // two-boundary mode: one terminator ends a fill, another opens a later fill
             if (two) c.seti("variant", V_MIXED);
             if (two || *g::chance(75)) {
                 std::vector<long> cand, cand2;
